@@ -12,7 +12,8 @@ func c04Run1(banned bool, permanent bool) *c04Run {
 	r.acct = &vAcctStub{exists: vBool("account_exists")}
 	accLogin := string(vBytesEach("acct.login", 2))
 	accPw := vBytesEach("acct.pw", 2)
-	r.acct.account = Account{Login: accLogin, Name: "n", Password: "H:" + string(accPw)}
+	r.acctPw = accPw
+	r.acct.account = Account{Login: accLogin, Name: "n", Password: HashAndSalt(accPw)}
 	copy(r.acct.account.Access[:], vBytesN("acct.access", 8))
 	srv.AccountManager = r.acct
 	r.ban = &vBanStub{banned: banned}
